@@ -68,7 +68,7 @@ pub fn reserve_strategy() -> impl Strategy<Value = (u8, u128, u128)> {
 
 pub fn swap_strategy() -> impl Strategy<Value = SwapOp> {
     // flat tuple, no unions (see ops::op_strategy)
-    (any::<bool>(), any::<bool>(), 0u8..8, any::<u32>(), 0u8..8, 0u8..4, any::<u16>(), 0u8..5, any::<bool>(), 0u8..40).prop_map(
+    (any::<bool>(), any::<bool>(), 0u8..8, any::<u32>(), 0u8..8, 0u8..4, any::<u16>(), 0u8..5, any::<bool>(), 0u8..41).prop_map(
         |(input, add, class, k, limit_mode, r, rk, nb, over, adm)| SwapOp {
             input,
             add,
@@ -220,6 +220,14 @@ pub fn admin_churn(sim: &mut crate::vsim::VSim, admin: u8) -> Option<String> {
                 ));
             }
             let _ = sim.exec(OWNER, ExecuteMsg::SetOpen { open: true });
+        }
+        4 => {
+            // the margin engine settles funding as soon as it is due: a settlement is not a trade either
+            let due = st0.next_funding_time;
+            let now = sim.now();
+            sim.next_block(due.saturating_sub(now) + 1);
+            // (whether it is accepted is not this property's business)
+            let _ = sim.exec(ENGINE, ExecuteMsg::SettleFunding {});
         }
         2 => {
             let _ = sim.exec(OWNER, cfgmsg(Some("engine-typo".into()), None));
